@@ -482,6 +482,15 @@ func bjjFaults() []bjjFault {
 			}
 		}},
 		{name: "resolver-error", apply: func(s *verifySetup, p *verifiable.BJJSignatureProof2021, x *bjjCtx, r *Rng) { x.res.mode = "error" }},
+		{name: "resolver-errors-for-the-proof-state-while-the-latest-state-is-published", apply: func(s *verifySetup, p *verifiable.BJJSignatureProof2021, x *bjjCtx, r *Rng) {
+			if p.IssuerData.State.Value != nil {
+				if h, err := merkletree.NewHashFromHex(*p.IssuerData.State.Value); err == nil {
+					x.res = resolverCfg{mode: "published", perState: map[string]string{h.Hex(): "error"}}
+					return
+				}
+			}
+			x.res.mode = "error"
+		}},
 		{name: "resolver-no-state-info", apply: func(s *verifySetup, p *verifiable.BJJSignatureProof2021, x *bjjCtx, r *Rng) { x.res.mode = "noinfo" }},
 		{name: "status-nonce-mismatch", apply: func(s *verifySetup, p *verifiable.BJJSignatureProof2021, x *bjjCtx, r *Rng) {
 			p.IssuerData.CredentialStatus = map[string]any{"id": "https://status.example/auth", "type": "SparseMerkleTreeProof", "revocationNonce": nonceNeighbour(s.is.authNonce)}
